@@ -84,6 +84,13 @@ def check_atomic(ctx: Ctx, rule: str, fns: List[FuncInfo]) -> int:
                 params = set(fn.params)
                 # the opened name must be a temporary (not a parameter = the final name) ...
                 is_tmp = isinstance(c.args[0], ast.Name) and c.args[0].id not in params
+                if is_tmp:
+                    # every definition of the temporary name must differ from the bare final name (no alias on any path)
+                    defs = [n.value for n in walk_no_nested(fn.node) if isinstance(n, ast.Assign)
+                            and any(isinstance(t, ast.Name) and t.id == c.args[0].id for t in n.targets)]
+                    if not defs or any(isinstance(d, ast.Name) and d.id in params for d in defs) or \
+                            any(isinstance(d, ast.IfExp) and any(isinstance(x, ast.Name) and x.id in params for x in (d.body, d.orelse)) for d in defs):
+                        is_tmp = False
                 # ... that is moved onto a parameter-named final file after the write block, at the same level
                 moved = False
                 final = None
@@ -91,11 +98,12 @@ def check_atomic(ctx: Ctx, rule: str, fns: List[FuncInfo]) -> int:
                 if body is not None:
                     idx = body.index(s)
                     for s2 in body[idx + 1:]:
-                        for m in ast.walk(s2):
-                            if isinstance(m, ast.Call) and norm(m.func) in ('os.replace', 'os.rename', 'shutil.move') \
-                                    and len(m.args) == 2 and norm(m.args[0]) == target:
-                                final = norm(m.args[1])
-                                moved = isinstance(m.args[1], ast.Name) and m.args[1].id in params
+                        # the move must be an unconditional statement of the same block (not nested under a test)
+                        m = s2.value if isinstance(s2, ast.Expr) else None
+                        if isinstance(m, ast.Call) and norm(m.func) in ('os.replace', 'os.rename', 'shutil.move') \
+                                and len(m.args) == 2 and norm(m.args[0]) == target:
+                            final = norm(m.args[1])
+                            moved = isinstance(m.args[1], ast.Name) and m.args[1].id in params
                 ok = is_tmp and moved
                 ctx.obligation(rule, construct + ':open(%s)' % mode, ok,
                                {'opened': target, 'temporary': is_tmp, 'moved_onto': final})
@@ -377,3 +385,14 @@ MUTANTS = [
 ENGINES = ['model', 'paths', 'codec']
 TECHNIQUE = ('static analysis: atomic-write discipline over the save call graph, must-pass-through and '
              'guard-before-return path rules with exception routing, writer/reader field agreement')
+
+
+def sweep(overlay):
+    from ..selftest import simple_statement, sweep_lines
+    out = []
+    for path, q in ((RUNNER, 'SimulationRunner._simulate_for_current_params_common'),
+                    (RUNNER, 'SimulationResultsSaver.save_partial_results'), (RUNNER, 'SimulationResultsSaver.load_partial_results'),
+                    (RUNNER, 'SimulationResultsSaver.cleanup'), (RES, 'SimulationResults._save_to_pickle'),
+                    (RES, 'SimulationResults._save_to_json')):
+        out += sweep_lines(overlay, path, q, simple_statement, 'C07')
+    return out
